@@ -64,6 +64,11 @@ def decoder_worker(
             break
         codec, encoded_frame = task
 
+        # an empty packet would flush the decoder, which then does not accept
+        # any further data
+        if not encoded_frame.data:
+            continue
+
         if codec.name != codec_name:
             decoder = get_decoder(codec)
             codec_name = codec.name
